@@ -581,8 +581,11 @@ def _history(w, r, rec, nevents, want_model, parse_gitlog, snap_of, deadline=Non
         ledger[:] = [i for i in ledger if present(i, sc)]
 
     def tag_ledger(d):
+        nested = any(is_prefix(s_["dir"], d) and norm(s_["dir"]) != norm(d) for s_ in specs)
         for it in ledger:
-            it.setdefault("dir", norm(d))
+            if "dir" not in it:
+                it["dir"] = norm(d)
+                it["nested"] = nested
 
     def git_dirs():
         """git clones in the workspace proper, as (normalised recipe dir, path)"""
@@ -631,7 +634,7 @@ def _history(w, r, rec, nevents, want_model, parse_gitlog, snap_of, deadline=Non
         for item in ledger:
             if not present(item, sc):
                 sig = "user-work-lost-by-" + kind
-                if kind == "clean-attic":
+                if kind == "clean-attic" and item.get("nested"):
                     sig = "F-C12-attic-clean-removes-nested-user-work"
                     first = (item.get("dir") or ".").split("/")[0]
                     if first != "." and first < ".":
